@@ -241,8 +241,18 @@ def dealer_pending_drain(h):
     from .d_c09 import Fut
     from ..models import _deref
     prog = h.it.prog
-    n = 1 + h.choose(h.params.get("max_queued", 4), "queued")
+    opts_n = h.params.get("queued_options", [1, 2, 3, 4, 17, 33])
+    n = opts_n[h.choose(len(opts_n), "queued")]
     attach_first = h.choose(2, "peer_attached_before_the_task_first_runs") == 1
+    # the unbiased inner select! picks its start branch at random: explored for the first wake-ups, then fixed (branch 0),
+    # which keeps long backlogs tractable
+    rng = {"n": 0}
+    def thread_rng_n(it, args, dty, func):
+        rng["n"] += 1
+        if rng["n"] <= h.params.get("explored_rng_draws", 3):
+            return h.choose(2, f"select_start{rng['n']}")
+        return 0
+    h.it.hooks["tokio::macros::support::thread_rng_n"] = thread_rng_n
     def notify():
         return BoxV(Cell(Agg("{notify}", [0, False]), "notify"), ())
     qn, pn, stop = notify(), notify(), notify()
@@ -276,7 +286,7 @@ def dealer_pending_drain(h):
     f = Fut(h, DPROC, "run", [proc])
     if attach_first:
         attach()
-    for step in range(3 * n + 6):
+    for step in range(4 * n + 8):
         r = f.poll()
         h.check(r is None, "c01.dealer-drain.processor-task-exited")
         if r is not None:
@@ -293,6 +303,7 @@ def dealer_pending_drain(h):
     h.check(delivered == list(range(1, n + 1 - len(left))), "c01.dealer-drain.order", str(delivered))
     h.cover("c01.dealer-drain.drained", not left)
     h.cover("c01.dealer-drain.several-queued", n >= 3)
+    h.cover("c01.dealer-drain.long-backlog", n >= 17)
 
 
 def replay_dealer_pending_drain(model, params, role):
